@@ -12,7 +12,9 @@ export PATH=/opt/veriftools/go1.26.8/bin:$PATH GOFLAGS=-mod=mod GOPROXY=off GOSU
 WT=/var/tmp/seedcheck.$$.$ID
 cleanup() { git -C /repo worktree remove --force "$WT" >/dev/null 2>&1; rm -rf "$WT"; }
 trap cleanup EXIT
-git -C /repo worktree add -q --detach "$WT" f430c3d || { echo "$ID: worktree failed"; exit 2; }
+# SEED_BASE: the commit the change was written against (default: the pinned library
+# commit; changes written after the fix: commits are written against /repo's HEAD)
+git -C /repo worktree add -q --detach "$WT" "${SEED_BASE:-f430c3d}" || { echo "$ID: worktree failed"; exit 2; }
 mkdir -p "$WT/zz_demo" && cp "$SRC/demo$K/main.go" "$WT/zz_demo/main.go" || { echo "$ID: no demo"; exit 2; }
 cd "$WT"
 ( go run ./zz_demo >"$WT/.demo_orig.log" 2>&1 ); ORIG=$?
